@@ -272,6 +272,7 @@ fn mutants(w: &World, p: &Pending, rng: &mut Rng, other_reply: Option<&Slate>, p
 			("attacker: smaller output", -1_000, 0, false, false),
 			("attacker: signs a lower fee", 0, -1_000_000, false, false),
 			("attacker: extra output", 0, 0, true, false),
+			("attacker: amount split over two outputs, balanced and re-signed (fee below the minimum for the weight)", 0, 0, false, false),
 			("attacker: higher fee taken from the amount, fee and amount left in the reply", -7_000_000, 7_000_000, false, true),
 			("attacker: lower fee added to the amount, fee and amount left in the reply", 2_000_000, -2_000_000, false, true),
 			("attacker: higher fee taken from the amount, only the fee left in the reply", -7_000_000, 7_000_000, false, true),
@@ -290,7 +291,13 @@ fn mutants(w: &World, p: &Pending, rng: &mut Rng, other_reply: Option<&Slate>, p
 			s.amount = (p.amount as i64 + amt_delta) as u64;
 			s.fee_fields = FeeFields::new(0, (p.fee as i64 + fee_delta) as u64).unwrap_or(FeeFields::zero());
 			let key_id = ExtKeychain::derive_key_id(3, 1, rng.next() as u32, 0, 0);
-			let mut elems = vec![build::output(s.amount, key_id.clone())];
+			let split = name.contains("split over two outputs");
+			let part2 = if split { s.amount / 3 } else { 0 };
+			let key_id2 = ExtKeychain::derive_key_id(3, 3, rng.next() as u32, 0, 0);
+			let mut elems = vec![build::output(s.amount - part2, key_id.clone())];
+			if split {
+				elems.push(build::output(part2, key_id2.clone()));
+			}
 			if *extra {
 				elems.push(build::output(5_000, ExtKeychain::derive_key_id(3, 2, rng.next() as u32, 0, 0)));
 			}
@@ -298,7 +305,10 @@ fn mutants(w: &World, p: &Pending, rng: &mut Rng, other_reply: Option<&Slate>, p
 				continue;
 			}
 			let mut ctx = Context::new(kc.secp(), &ExtKeychain::derive_key_id(2, 0, 0, 0, 0), false, false);
-			ctx.add_output(&key_id, &None, s.amount);
+			ctx.add_output(&key_id, &None, s.amount - part2);
+			if split {
+				ctx.add_output(&key_id2, &None, part2);
+			}
 			if s.fill_round_1(&kc, &mut ctx).is_err() {
 				continue;
 			}
